@@ -86,8 +86,12 @@ def main():
             for t in failed:
                 if t == "nng.platform.resolver_test":
                     continue
-                rr = sh("ctest --test-dir %s/build -R '^%s$' --timeout 900 2>&1 | tail -3" % (wt, t))
-                if "100% tests passed" not in rr.stdout:
+                okt = False
+                for _ in range(3):      # known-flaky tests (multistress, nngcat_*: fixed ports / paths) get three tries alone
+                    rr = sh("ctest --test-dir %s/build -R '^%s$' --timeout 900 2>&1 | tail -3" % (wt, t))
+                    if "100% tests passed" in rr.stdout:
+                        okt = True; break
+                if not okt:
                     again.append(t)
             res["suite_failed_first"] = failed
             res["suite_failed"] = again
